@@ -305,6 +305,9 @@ func (m *Module) verifyImportGlobalI32(sectionID SectionID, sectionIdx Index, id
 				if imp.DescGlobal.ValType != ValueTypeI32 {
 					return fmt.Errorf("%s[%d] (global.get %d): import[%d].global.ValType != i32", SectionIDName(sectionID), sectionIdx, idx, i)
 				}
+				if imp.DescGlobal.Mutable {
+					return fmt.Errorf("%s[%d] (global.get %d): import[%d].global is mutable", SectionIDName(sectionID), sectionIdx, idx, i)
+				}
 				return nil
 			}
 		}
